@@ -101,14 +101,20 @@ func raises(ast *progs.Prog, hs *progs.HSnap, line string) bool {
 }
 
 func check(h hist, c *progs.Case) (out []finding, interesting bool) {
-	want := map[string]*tally{}
+	out, interesting, _, _ = reconcile(h, c)
+	return out, interesting
+}
+
+// reconcile also returns the harness's own tallies (per program, and the log
+// lines delivered) at the end of the history.
+func reconcile(h hist, c *progs.Case) (out []finding, interesting bool, want map[string]*tally, lines int64) {
+	want = map[string]*tally{}
 	get := func(p string) *tally {
 		if want[p] == nil {
 			want[p] = &tally{}
 		}
 		return want[p]
 	}
-	var lines int64
 	var prev progs.Snap
 	kinds := map[string]bool{}
 	for i, op := range c.Ops {
@@ -144,7 +150,7 @@ func check(h hist, c *progs.Case) (out []finding, interesting bool) {
 		case "line":
 			lines++
 			for _, hs := range prev.Handles {
-				if hs.Src >= 0 && h.w.Asts[hs.Src] != nil && raises(h.w.Asts[hs.Src], &hs, op.Line) {
+				if hs.Src >= 0 && hs.Src < len(h.w.Asts) && h.w.Asts[hs.Src] != nil && raises(h.w.Asts[hs.Src], &hs, op.Line) {
 					get(hs.Prog).rterrs++
 					kinds["runtime-error"] = true
 				}
@@ -187,7 +193,7 @@ func check(h hist, c *progs.Case) (out []finding, interesting bool) {
 		}
 		prev = cur
 	}
-	return out, len(kinds) >= 2
+	return out, len(kinds) >= 2, want, lines
 }
 
 func main() {
@@ -278,7 +284,58 @@ func main() {
 			out.Violate(f.class, f.what, map[string]any{"kind": "tail", "case": tc})
 		}
 	}
-	out.Flush("load/reload/unload/line/GC histories (7-14 steps) over 1-3 programs; every expvar delta is compared after every step; non-trivial when the history contains at least two of: compile error, refused registration, unload, runtime error; plus end-to-end histories of a real mtail.Server over 1-3 log files (create with content to be skipped, append with empty lines, CRLF and unterminated tails, remove) reconciling log_count, log_lines_total and lines_total after every event, non-trivial when a file is removed and some append ends without a newline", false)
+	// ---- the end of a run ----
+	nd, ne := 80, 40
+	if a.Thorough() {
+		nd, ne = 1500, 600
+	}
+	report := func(fs []finding, kind string, c any) {
+		seen := map[string]bool{}
+		for _, f := range fs {
+			if seen[f.class] {
+				continue
+			}
+			seen[f.class] = true
+			out.Violate(f.class, f.what, map[string]any{"kind": kind, "case": c})
+		}
+	}
+	for i := 0; i < nd; i++ {
+		dc := genExact(rng.Fork())
+		fs := runExact(dc)
+		out.Add(coqDCase(out.NextID(), dc), dc, dc.InFlight > 0 && dc.NLines > 0)
+		out.Count("end-exact/histories")
+		switch {
+		case dc.NLines == 0:
+			out.Count("end-exact/no-line-sent")
+		case len(dc.Names) == 0:
+			out.Count("end-exact/no-program")
+		case dc.InFlight > 0:
+			out.Count("end-exact/closed-while-last-line-held-out")
+		default:
+			out.Count("end-exact/closed-while-loader-idle")
+		}
+		report(fs, "end-exact", dc)
+	}
+	calibrateSlow()
+	for i := 0; i < ne; i++ {
+		er := genEnd(rng.Fork().Uint64())
+		ec, fs := runEnd(er)
+		busyAtEnd := false
+		for j, b := range er.burst {
+			if b == slowMark && j < len(er.burst)-1 {
+				busyAtEnd = true
+			}
+		}
+		out.Add(coqECase(out.NextID(), er, ec), ec, busyAtEnd)
+		out.Count("end-run/histories")
+		if busyAtEnd {
+			out.Count("end-run/vm-busy-when-last-line-sent")
+		}
+		out.Count(fmt.Sprintf("end-run/close-after-%dus", er.delay))
+		report(fs, "end-run", ec)
+	}
+	out.Extra["slow_line_bytes"] = len(slowLine)
+	out.Flush("load/reload/unload/line/GC histories (7-14 steps) over 1-3 programs; every expvar delta is compared after every step; non-trivial when the history contains at least two of: compile error, refused registration, unload, runtime error; plus end-to-end histories of a real mtail.Server over 1-3 log files (create with content to be skipped, append with empty lines, CRLF and unterminated tails, remove) reconciling log_count, log_lines_total and lines_total after every event, non-trivial when a file is removed and some append ends without a newline; plus ends of runs: the real fan-out loop over 0-3 stand-in programs under exact interleavings of 0-4 sends, the close, hand-overs and the end of input (non-trivial when the channel is closed while the loader still holds the last line out to a program), and real Runtimes with real VMs whose input is closed 0-200 us after a burst of 1-5 lines (non-trivial when a VM is still busy with a slow line when the last line is sent), lines_total and the per-program counters read after shutdown", false)
 }
 
 // corpus: b.mtail refused at its second metric must count as a load error.
@@ -303,6 +360,21 @@ func replay(path string) {
 			Case TCase  `json:"case"`
 		} `json:"case"`
 	}
+	var kk struct {
+		Class string `json:"class"`
+		Case  struct {
+			Kind string `json:"kind"`
+		} `json:"case"`
+	}
+	vlib.ReadJSON(path, &kk)
+	if kk.Case.Kind == "end-exact" || kk.Case.Kind == "end-run" {
+		replayEnd(path, kk.Case.Kind, kk.Class)
+		return
+	}
+	if kk.Case.Kind != "tail" {
+		replayHistory(path)
+		return
+	}
 	vlib.ReadJSON(path, &k)
 	if k.Case.Kind == "tail" {
 		tc := k.Case.Case
@@ -325,6 +397,9 @@ func replay(path string) {
 		fmt.Println("holds")
 		return
 	}
+}
+
+func replayHistory(path string) {
 	var v struct {
 		Class string `json:"class"`
 		Case  struct {
